@@ -27,6 +27,8 @@ const LIGHT: u32 = 8;
 const ROOTI: u32 = 16;
 // bit5 = the pre-state's configuration list is in reverse document order (the configuration is kept in entry order, which is not document order)
 const REVC: u32 = 32;
+// bit6 = one solver-chosen onentry body fails (returns false): the state's other blocks (initial-transition content, history default content) still run
+const FAILB: u32 = 64;
 
 harnesses! {
     // per-change tier: one fully symbolic transition, event selection
@@ -45,7 +47,7 @@ harnesses! {
     h_sc2_s4 => sc_step(4, 2, 0), h_sc2_s5 => sc_step(5, 2, LIGHT), h_sc2_s6 => sc_step(6, 2, 0), h_sc2_s7 => sc_step(7, 2, LIGHT),
     h_sc2_s8 => sc_step(8, 2, LIGHT), h_sc2_s9 => sc_step(9, 2, 0), h_sc2_s10 => sc_step(10, 2, LIGHT), h_sc2_s11 => sc_step(11, 2, LIGHT),
     // reader-built root (never entered): per-change tier on one shape of each family
-    h_sc1i_s1 => sc_step(1, 1, ROOTI | REVC), h_sc1i_s3 => sc_step(3, 1, LIGHT | ROOTI | REVC), h_sc1i_s4 => sc_step(4, 1, ROOTI | REVC), h_sc1i_s6 => sc_step(6, 1, ROOTI | REVC), h_sc1i_s7 => sc_step(7, 1, LIGHT | ROOTI | REVC),
+    h_sc1i_s1 => sc_step(1, 1, ROOTI | REVC | FAILB), h_sc1i_s3 => sc_step(3, 1, LIGHT | ROOTI | REVC), h_sc1i_s4 => sc_step(4, 1, ROOTI | REVC | FAILB), h_sc1i_s6 => sc_step(6, 1, ROOTI | REVC), h_sc1i_s7 => sc_step(7, 1, LIGHT | ROOTI | REVC),
     h_start_all => sc_startup(),
 }
 
@@ -176,6 +178,7 @@ fn sc_step(shape_ix: u32, nt: u32, mode: u32) {
     while s <= m.sh.n as u32 { if pre_mask & (1 << s) == 0 { first_entry |= 1 << s; } else { fsm.states[(s - 1) as usize].isFirstEntry = false; } s += 1; }
     let mut dm = VDm::new(g.clone());
     dm.guards = guards.clone();
+    if mode & FAILB != 0 { let fb = vnd_range(2, m.sh.n as u32, 45); dm.effects.push((X_ENTRY + fb, 3)); }
 
     // ---- the real code
     let enabled = if eventless { fsm.vh_selectEventlessTransitions(&mut dm) } else { fsm.vh_selectTransitions(&mut dm, &Event::new_simple("e1")) };
